@@ -31,6 +31,7 @@ import (
 	"reflect"
 	"regexp"
 	"runtime"
+	"runtime/debug"
 	"sort"
 	"strconv"
 	"strings"
@@ -87,6 +88,9 @@ func (a *acc) out(route, class string, s *spec) {
 
 func (a *acc) fail(in caseIn, s *spec, kind, stage, cause, what, observed, expected string) {
 	sig := kind + ":" + stage + ":" + cause
+	if s.leafOf().class == "named-key-map" {
+		sig += "[map-key]" // same message as a named value, different site (MapConverter)
+	}
 	a.ord++
 	if f, ok := a.Finds[sig]; ok {
 		f.N++
@@ -763,12 +767,24 @@ func (a *acc) runUnit(u unit, only caseIn) {
 // Worker is the sub-command `check c08-worker <i> <n> <tier>`: it runs the units with index = i mod n,
 // sequentially, announces each on stderr (so a fatal crash can be attributed) and prints one JSON result.
 func Worker(args []string) {
+	debug.SetMaxStack(64 << 20) // a runaway recursion in the bridge dies quickly instead of eating 1 GB first
 	i, _ := strconv.Atoi(args[0])
 	n, _ := strconv.Atoi(args[1])
 	us := units(args[2] == "thorough")
+	skip := map[int]bool{}
+	if len(args) > 3 {
+		for _, f := range strings.Split(args[3], ",") {
+			if k, err := strconv.Atoi(f); err == nil {
+				skip[k] = true
+			}
+		}
+	}
 	a := newAcc()
 	w := bufio.NewWriterSize(os.Stderr, 64)
 	for k := i; k < len(us); k += n {
+		if skip[k] {
+			continue
+		}
 		fmt.Fprintf(w, "@%d\n", k)
 		w.Flush()
 		a.idx = k
@@ -813,43 +829,56 @@ func Check(r *ev.Run, replay string) {
 	if n > 32 {
 		n = 32
 	}
-	type wres struct {
-		a    *acc
-		err  string
-		last int
+	type crash struct {
+		unit int
+		msg  string
 	}
+	type wres struct {
+		a       *acc
+		err     string
+		crashes []crash
+	}
+	const maxRestarts = 3
 	results := make([]wres, n)
 	var wg sync.WaitGroup
 	for i := 0; i < n; i++ {
 		wg.Add(1)
 		go func(i int) {
 			defer wg.Done()
-			c, cancel := context.WithTimeout(context.Background(), 7*time.Minute)
-			defer cancel()
-			cmd := exec.CommandContext(c, self, "c08-worker", strconv.Itoa(i), strconv.Itoa(n), r.Tier)
-			var so, se bytes.Buffer
-			cmd.Stdout, cmd.Stderr = &so, &se
-			err := cmd.Run()
-			last := -1
-			lines := strings.Split(strings.TrimSpace(se.String()), "\n")
-			for j := len(lines) - 1; j >= 0; j-- {
-				if strings.HasPrefix(lines[j], "@") {
-					last, _ = strconv.Atoi(lines[j][1:])
+			var res wres
+			var skip []string
+			for attempt := 0; attempt <= maxRestarts; attempt++ {
+				c, cancel := context.WithTimeout(context.Background(), 7*time.Minute)
+				cmd := exec.CommandContext(c, self, "c08-worker", strconv.Itoa(i), strconv.Itoa(n), r.Tier, strings.Join(skip, ","))
+				var so, se bytes.Buffer
+				cmd.Stdout, cmd.Stderr = &so, &se
+				err := cmd.Run()
+				cancel()
+				if err == nil {
+					res.a = newAcc()
+					if e := json.Unmarshal(so.Bytes(), res.a); e != nil {
+						res.err = "worker output does not parse: " + e.Error()
+						res.a = nil
+					}
 					break
 				}
-			}
-			res := wres{last: last}
-			if err != nil {
-				tail := se.String()
-				if k := strings.LastIndex(tail, "@"+strconv.Itoa(last)+"\n"); k >= 0 {
-					tail = tail[k:]
+				// the worker died: attribute it to the unit it announced last, then run again without that unit
+				last, text := -1, se.String()
+				if k := strings.LastIndex(text, "@"); k >= 0 {
+					line := text[k+1:]
+					if nl := strings.IndexByte(line, '\n'); nl >= 0 {
+						last, _ = strconv.Atoi(line[:nl])
+						text = line[nl+1:]
+					}
 				}
-				res.err = err.Error() + ": " + ev.Clip(tail, 600)
-			} else {
-				res.a = newAcc()
-				if e := json.Unmarshal(so.Bytes(), res.a); e != nil {
-					res.err = "worker output does not parse: " + e.Error()
-					res.a = nil
+				if last < 0 {
+					res.err = err.Error() + ": " + ev.Clip(text, 400)
+					break
+				}
+				res.crashes = append(res.crashes, crash{last, err.Error() + ": " + ev.Clip(strings.TrimSpace(text), 300)})
+				skip = append(skip, strconv.Itoa(last))
+				if attempt == maxRestarts {
+					res.err = "restart limit"
 				}
 			}
 			results[i] = res
@@ -859,12 +888,19 @@ func Check(r *ev.Run, replay string) {
 
 	finds := map[string]*finding{}
 	counts := map[string]int{}
+	reFatal := regexp.MustCompile(`fatal error: ([a-z ]+)`)
 	for i, w := range results {
+		for _, c := range w.crashes {
+			u := us[c.unit]
+			cause := "unknown"
+			if m := reFatal.FindStringSubmatch(c.msg); m != nil {
+				cause = strings.ReplaceAll(strings.TrimSpace(m[1]), " ", "-")
+			}
+			r.Report("fatal:"+cause, fmt.Sprintf("the process died (not a recoverable panic) while running %s %s", u.s.path, unitIn(u).Value), unitIn(u), c.msg, "no fatal error")
+		}
 		if w.a == nil {
-			if w.last >= 0 && w.last < len(us) && !strings.Contains(w.err, "does not parse") {
-				u := us[w.last]
-				r.Report("crash:worker", fmt.Sprintf("the process died while running %s %s (worker %d): %s", u.s.path, unitIn(u).Value, i, w.err), unitIn(u), w.err, "no fatal error")
-				r.Cap(fmt.Sprintf("worker %d died at unit %d; the rest of its share was not run", i, w.last))
+			if w.err == "restart limit" {
+				r.Cap(fmt.Sprintf("worker %d died %d times; the rest of its share was not run", i, len(w.crashes)))
 			} else {
 				r.EngineError(fmt.Sprintf("worker %d: %s", i, w.err))
 			}
@@ -931,6 +967,7 @@ func Check(r *ev.Run, replay string) {
 }
 
 func replayOne(r *ev.Run, path string) {
+	debug.SetMaxStack(64 << 20)
 	var in caseIn
 	if err := ev.ReadReplay(path, &in); err != nil {
 		r.EngineError("cannot read replay: " + err.Error())
